@@ -80,7 +80,7 @@ PROPS = {
         "level": "fault_enumeration",
         "units": [
             U("c07", "TestCrashPoints", T(1, 12, 400, shrinktime="90s"), T(1, 192, 900, shrinktime="300s"), needs=["nodeexec"]),
-            U("c07", "TestKillAnytime", T(4, 6, 400, shrinktime="60s"), T(6, 160, 900, shrinktime="200s"), needs=["nodeexec"]),
+            U("c07", "TestKillAnytime", T(4, 10, 400, shrinktime="60s"), T(6, 160, 900, shrinktime="200s"), needs=["nodeexec"]),
         ],
     },
     "C08": {
